@@ -450,13 +450,14 @@ def pickSig (ss : Settings) (o : Offer) (cred : Option Cred) (v : Nat) : Option 
   | some algs => firstMatching (sigHashesToList ss none cred v) algs
 
 /-- "if we have matching PSKs, prefer those": restrict to the PRF hashes of the matching PSK configurations -/
-def pskPrfs (ss : Settings) (o : Offer) : List String :=
-  if !ss.pskConfigs.isEmpty && !o.pskIds.isEmpty then
+def pskPrfs (ss : Settings) (o : Offer) (v : Nat) : List String :=
+  -- pre_shared_key is a TLS 1.3 extension: it is looked at only when TLS 1.3 is negotiated
+  if v > 3 && !ss.pskConfigs.isEmpty && !o.pskIds.isEmpty then
     (ss.pskConfigs.filter fun p => o.pskIds.any (·.1 == p.1)).map fun p => if p.2 == "" then "sha256" else p.2
   else []
 
-def prfFiltered (ss : Settings) (o : Offer) (ciphers : List Nat) : List Nat :=
-  if (pskPrfs ss o).isEmpty then ciphers else filterForPrfs ciphers (pskPrfs ss o)
+def prfFiltered (ss : Settings) (o : Offer) (v : Nat) (ciphers : List Nat) : List Nat :=
+  if (pskPrfs ss o v).isEmpty then ciphers else filterForPrfs ciphers (pskPrfs ss o v)
 
 /-- ECDSA certificate: curve compatibility with the client's groups -/
 def checkServerCurve (sc : ServerCfg) (o : Offer) (v : Nat) : Outcome Unit :=
@@ -471,7 +472,7 @@ def checkServerCurve (sc : ServerCfg) (o : Offer) (v : Nat) : Outcome Unit :=
 /-- `_server_select_certificate` with a single (cert, key) pair: suite and signature scheme -/
 def selectCertificate (ss : Settings) (sc : ServerCfg) (o : Offer) (suites : List Nat) (v : Nat) :
     Outcome (Nat × Nat) :=
-  match (prfFiltered ss o (filterForCertificate suites sc.cred)).find? (o.suites.contains ·) with
+  match (prfFiltered ss o v (filterForCertificate suites sc.cred)).find? (o.suites.contains ·) with
   | none =>
     if (o.groups.getD []).any (fun g => 256 ≤ g && g < 512) && o.suites.any (dhAllSuites.contains ·)
     then Outcome.alert .server "insufficient_security"
